@@ -3610,3 +3610,273 @@ Proof.
   destruct (create_candidates [od_0; od_1; od_2; od_3] None) as [o1|k] eqn:E1; vm_compute in E1; [|discriminate E1].
   inversion E1. eexists. split; [reflexivity|]. vm_compute. reflexivity.
 Qed.
+
+(* ====================================================================================================== *)
+(* fourth pass: the candidate pair loop on circular records, interleaved completeness for any wrap point,    *)
+(* classes of protocluster (a protocluster without defining genes)                                          *)
+(* ====================================================================================================== *)
+Module Ring.
+Import Kinds.
+
+(* ---------- the candidate / candidate pair loop of _find_interleaved_candidates ---------- *)
+Definition cc_rel (a b : cand * loc) : bool := overlap (snd a) (snd b).
+Definition cc_group (xy : (cand * loc) * (cand * loc)) : list proto := cmem (fst (fst xy)) ++ cmem (fst (snd xy)).
+
+(* the pair loop compares every pair of positions: whatever the order of the candidates, whatever their coordinates *)
+Lemma cand_pair_scan_complete : forall cc l1 a l2 b l3, cc = l1 ++ a :: l2 ++ b :: l3 ->
+  overlap (snd a) (snd b) = true -> In (cmem (fst a) ++ cmem (fst b)) (find_interleaved_candidates cc).
+Proof.
+  intros cc l1 a l2 b l3 E Ho. subst cc. unfold find_interleaved_candidates. cbv zeta. apply in_map_iff.
+  exists (a, b). split; [reflexivity|]. apply in_or_app. left. apply pairs_rel_complete. exact Ho.
+Qed.
+
+Lemma last_opt_cons2 : forall A (x y : A) r, last_opt (x :: y :: r) = last_opt (y :: r).
+Proof.
+  intros A x y r. unfold last_opt. cbn [rev]. destruct (rev r ++ [y]) as [|z zs] eqn:E.
+  - destruct (rev r); discriminate E.
+  - reflexivity.
+Qed.
+
+(* the "origin-crossing pairs" block (first against last) adds no group that the pair loop has not produced *)
+Lemma origin_block_redundant : forall cc g,
+  In g (find_interleaved_candidates cc) <-> In g (map cc_group (pairs_rel cc_rel cc)).
+Proof.
+  intros cc g. unfold find_interleaved_candidates. cbv zeta. fold cc_rel. split; intro H.
+  - apply in_map_iff in H. destruct H as [[a b] [He Hab]]. apply in_map_iff. exists (a, b). split; [exact He|].
+    apply in_app_or in Hab. destruct Hab as [Hab|Hab]; [exact Hab|].
+    destruct cc as [|c1 [|c2 r]]; [destruct Hab|destruct Hab|].
+    destruct (first_last (c1 :: c2 :: r)) as [[f l]|] eqn:Efl; [|destruct Hab].
+    destruct (overlap (snd f) (snd l)) eqn:Ec; [|destruct Hab]. destruct Hab as [Hab|[]]. inversion Hab; subst f l. clear Hab.
+    unfold first_last in Efl. rewrite last_opt_cons2 in Efl.
+    destruct (last_opt (c2 :: r)) as [z|] eqn:El; [|discriminate Efl]. inversion Efl; subst a b. clear Efl.
+    apply last_opt_In in El. cbn [pairs_rel]. apply in_or_app. left. apply in_map. apply filter_In.
+    split; [exact El|exact Ec].
+  - apply in_map_iff in H. destruct H as [[a b] [He Hab]]. apply in_map_iff. exists (a, b). split; [exact He|].
+    apply in_or_app. left. exact Hab.
+Qed.
+
+(* ---------- interleaved, completeness for ANY wrap point (linear and circular records) ---------- *)
+Lemma find_interleaved_v_groups : forall nw clusters cands w groups un,
+  find_interleaved_v nw clusters cands w = Ok (groups, un) ->
+  exists cc G, with_cores w cands = Ok cc /\ (forall g, In g (il_groups nw clusters cc) -> In g G) /\
+               groups = merge_sets G.
+Proof.
+  intros nw clusters cands w groups un H. unfold find_interleaved_v in H. cbv zeta in H.
+  destruct (with_cores w cands) as [cc|k] eqn:Ecc; cbn [bind] in H; [|discriminate H].
+  match type of H with bind ?e _ = _ => destruct e as [[f3 g3]|k] eqn:EF end; cbn [bind] in H; [|discriminate H].
+  inversion H; subst. exists cc, g3. split; [reflexivity|]. split; [|reflexivity].
+  intros g Hg. destruct (Cover.find_cross_covers _ _ _ _ _ _ EF) as [A _]. apply A.
+  unfold il_groups, il_hits in Hg. exact Hg.
+Qed.
+
+Theorem interleaved_complete_cc_any : forall nw clusters cands w groups un a b ka kb,
+  find_interleaved_v nw clusters cands w = Ok (groups, un) ->
+  In a cands -> In b cands -> a <> b -> ccore w a = Ok ka -> ccore w b = Ok kb -> overlap ka kb = true ->
+  exists g, In g groups /\ subsetP (cmem a) g /\ subsetP (cmem b) g.
+Proof.
+  intros nw clusters cands w groups un a b ka kb H Ha Hb Hne Hka Hkb Ho.
+  destruct (find_interleaved_v_groups _ _ _ _ _ _ H) as [cc [G [Ecc [Hin Egr]]]]. subst groups.
+  pose proof (with_cores_fwd _ _ _ Ecc a ka Ha Hka) as Ia. pose proof (with_cores_fwd _ _ _ Ecc b kb Hb Hkb) as Ib.
+  assert (Hne' : (a, ka) <> (b, kb)) by (intro He; inversion He; apply Hne; assumption).
+  assert (Hg0 : exists g0, In g0 G /\ subsetP (cmem a) g0 /\ subsetP (cmem b) g0).
+  { destruct (In_two_split _ _ _ _ Hne' Ia Ib) as [[l1 [l2 [l3 E]]]|[l1 [l2 [l3 E]]]].
+    - exists (cmem a ++ cmem b).
+      split; [|split; intros i Hi; apply inS_app; [left|right]; exact Hi].
+      apply Hin. unfold il_groups. apply in_or_app. left. apply in_or_app. left.
+      exact (cand_pair_scan_complete cc l1 (a, ka) l2 (b, kb) l3 E Ho).
+    - exists (cmem b ++ cmem a).
+      split; [|split; intros i Hi; apply inS_app; [right|left]; exact Hi].
+      apply Hin. unfold il_groups. apply in_or_app. left. apply in_or_app. left.
+      apply (cand_pair_scan_complete cc l1 (b, kb) l2 (a, ka) l3 E). cbn [snd]. apply overlap_true_sym. exact Ho. }
+  destruct Hg0 as [g0 [Hg0 [Sa Sb]]].
+  destruct (merge_sets_holds _ g0 Hg0 (subsetP_nonempty _ _ (ccore_nonempty _ _ _ Hka) Sa)) as [h [Hh Hsub]].
+  exists h. split; [exact Hh|]. split; intros i Hi; apply Hsub; [apply Sa|apply Sb]; exact Hi.
+Qed.
+
+Theorem interleaved_complete_cp_any : forall clusters cands w groups un c k cl,
+  find_interleaved_v true clusters cands w = Ok (groups, un) ->
+  In c cands -> ccore w c = Ok k -> In cl clusters -> overlap k (pcore cl) = true ->
+  exists g, In g groups /\ subsetP (cmem c) g /\ inS (pid cl) g.
+Proof.
+  intros clusters cands w groups un c k cl H Hc Hk Hcl Ho.
+  destruct (find_interleaved_v_groups _ _ _ _ _ _ H) as [cc [G [Ecc [Hin Egr]]]]. subst groups.
+  pose proof (with_cores_fwd _ _ _ Ecc c k Hc Hk) as Ic.
+  assert (Hg0 : In (cmem c ++ [cl]) G).
+  { apply Hin. unfold il_groups. apply in_or_app. right. apply in_map_iff. exists ((c, k), cl). split; [reflexivity|].
+    apply il_hits_complete; [exact Ic|exact Hcl|exact Ho]. }
+  assert (Hs0 : inS (pid cl) (cmem c ++ [cl])) by (apply inS_app; right; apply inS_single).
+  assert (Hne : cmem c ++ [cl] <> []).
+  { intro He. rewrite He in Hs0. apply inS_nil in Hs0. exact Hs0. }
+  destruct (merge_sets_holds _ _ Hg0 Hne) as [h [Hh Hsub]].
+  exists h. split; [exact Hh|]. split; [|apply Hsub; exact Hs0].
+  intros i Hi. apply Hsub. apply inS_app. left. exact Hi.
+Qed.
+
+Theorem interleaved_complete_pp_any : forall nw clusters cands w groups un x y,
+  find_interleaved_v nw clusters cands w = Ok (groups, un) ->
+  In x clusters -> In y clusters -> x <> y ->
+  (forall p, In p (pcore x) -> ps p < pe p) -> (forall p, In p (pcore y) -> ps p < pe p) ->
+  overlap (pcore x) (pcore y) = true ->
+  exists g, In g groups /\ inS (pid x) g /\ inS (pid y) g.
+Proof.
+  intros nw clusters cands w groups un x y H Hx Hy Hne Wx Wy Ho.
+  destruct (find_interleaved_v_groups _ _ _ _ _ _ H) as [cc [G [Ecc [Hin Egr]]]]. subst groups.
+  pose proof (sort_by_ssorted _ (fun p => lstart (pcore p)) clusters) as Hs.
+  change (ssorted (fun p => lstart (pcore p)) (sort_by core_start_lt clusters)) in Hs.
+  apply (sort_by_in _ core_start_lt) in Hx. apply (sort_by_in _ core_start_lt) in Hy.
+  assert (Hg0 : exists g0, In g0 G /\ inS (pid x) g0 /\ inS (pid y) g0).
+  { destruct (In_two_split _ _ x y Hne Hx Hy) as [[l1 [l2 [l3 E]]]|[l1 [l2 [l3 E]]]].
+    - exists [x; y]. split; [|split; [left; reflexivity|right; left; reflexivity]].
+      apply Hin. unfold il_groups. apply in_or_app. left. apply in_or_app. right.
+      apply in_map_iff. exists (x, y). split; [reflexivity|]. rewrite E in Hs |- *.
+      apply core_pairs_complete; [exact Hs|exact (overlap_hull_lt _ _ Wx Wy Ho)|exact Ho].
+    - exists [y; x]. split; [|split; [right; left; reflexivity|left; reflexivity]].
+      apply Hin. unfold il_groups. apply in_or_app. left. apply in_or_app. right.
+      apply in_map_iff. exists (y, x). split; [reflexivity|]. rewrite E in Hs |- *.
+      apply overlap_true_sym in Ho.
+      apply core_pairs_complete; [exact Hs|exact (overlap_hull_lt _ _ Wy Wx Ho)|exact Ho]. }
+  destruct Hg0 as [g0 [Hg0 [Sa Sb]]].
+  assert (Hne0 : g0 <> []). { intro He. rewrite He in Sa. apply inS_nil in Sa. exact Sa. }
+  destruct (merge_sets_holds _ g0 Hg0 Hne0) as [h [Hh Hsub]].
+  exists h. split; [exact Hh|]. split; apply Hsub; assumption.
+Qed.
+
+(* ---------- classes of protocluster: a protocluster without defining genes ---------- *)
+Lemma sideloaded_no_defs : forall genes p, pdefs (with_defs_k genes (p, false)) = [].
+Proof. intros genes p. reflexivity. Qed.
+
+Lemma rule_based_defs : forall genes p, pdefs (with_defs_k genes (p, true)) = private_defs genes p.
+Proof. intros genes p. reflexivity. Qed.
+
+Lemma defs_intersect_nonempty : forall a b, defs_intersect a b = true -> pdefs a <> [] /\ pdefs b <> [].
+Proof.
+  intros a b H. unfold defs_intersect in H. apply existsb_exists in H. destruct H as [g [Hg Hz]].
+  split; intro He; rewrite He in *; [destruct Hg|]. unfold zmem in Hz. cbn [existsb] in Hz. discriminate Hz.
+Qed.
+
+(* never one of the two members of a pair handed to _merge_sets by _find_hybrids *)
+Lemma no_defs_in_no_pair : forall clusters g x, In g (hybrid_pair_groups clusters) -> In x g -> pdefs x <> [].
+Proof.
+  intros clusters g x Hg Hx. destruct (pair_group_spec _ _ Hg) as [a [b [E [_ [_ D]]]]]. subst g.
+  destruct (defs_intersect_nonempty _ _ D) as [A B].
+  destruct Hx as [Hx|[Hx|[]]]; subst x; assumption.
+Qed.
+
+(* a protocluster without defining genes (sideloaded) is in a hybrid group only because its core lies inside the
+   joint core of a transitive group of protoclusters sharing defining genes, none of which lacks defining genes *)
+Theorem no_defs_only_by_containment : forall clusters w groups un, find_hybrids clusters w = Ok (groups, un) ->
+  forall g x, In g groups -> In x g -> pdefs x = [] ->
+  exists m core, In m (merge_sets (hybrid_pair_groups clusters)) /\
+    connect_locations (map pcore m) w = Ok core /\ (forall y, In y m -> In y g /\ pdefs y <> []) /\
+    ~ In x m /\ contains core (pcore x) = true.
+Proof.
+  intros clusters w groups un H g x Hg Hx Hd.
+  destruct (hybrids_sound _ _ _ _ H g Hg) as [m [core [Hm [Hc [Hsub Hall]]]]].
+  assert (Hmd : forall y, In y m -> pdefs y <> []).
+  { intros y Hy.
+    assert (Hal : allin (concat (hybrid_pair_groups clusters)) (hybrid_pair_groups clusters)).
+    { intros g0 z Hg0 Hz. apply in_concat. exists g0. split; assumption. }
+    pose proof (merge_sets_allin _ _ Hal m y Hm Hy) as Hin. apply in_concat in Hin. destruct Hin as [g0 [Hg0 Hz]].
+    exact (no_defs_in_no_pair _ _ _ Hg0 Hz). }
+  exists m, core. split; [exact Hm|]. split; [exact Hc|]. split; [intros y Hy; split; [exact (Hsub y Hy)|exact (Hmd y Hy)]|].
+  destruct (Hall x Hx) as [A|[_ [B _]]].
+  - exfalso. exact (Hmd x A Hd).
+  - split; [intro A; exact (Hmd x A Hd)|exact B].
+Qed.
+
+(* and it is never the reason for a hybrid: two protoclusters one of which has no defining genes do not share one *)
+Lemma no_defs_no_sharing : forall a b, pdefs a = [] -> defs_intersect a b = false /\ defs_intersect b a = false.
+Proof.
+  intros a b Hd. split.
+  - destruct (defs_intersect a b) eqn:E; [|reflexivity]. destruct (defs_intersect_nonempty _ _ E) as [A _]. contradiction.
+  - destruct (defs_intersect b a) eqn:E; [|reflexivity]. destruct (defs_intersect_nonempty _ _ E) as [_ A]. contradiction.
+Qed.
+End Ring.
+
+(* ---------- witnesses for the statements of module Ring ---------- *)
+(* a circular record of 20000 bases with three chemical hybrids: X = {0,1} crosses the origin, the core of Y = {2,3}
+   overlaps the pre-origin part of the core of X, Z = {4,5} is nested in the neighbourhood of Y; 6 and 7 are lone *)
+Definition r8_p (i : Z) (ext core : loc) (defs : list Z) : proto := mkProto i ext core i defs.
+Definition r8_protos : list proto :=
+  [ r8_p 0 [mkPart 19500 20000 1; mkPart 0 400 1] [mkPart 19800 20000 1; mkPart 0 100 1] [2];
+    r8_p 1 [mkPart 19600 20000 1; mkPart 0 500 1] [mkPart 19900 20000 1; mkPart 0 200 1] [2];
+    r8_p 2 [mkPart 19000 19950 1] [mkPart 19300 19850 1] [1];
+    r8_p 3 [mkPart 18900 19600 1] [mkPart 19200 19400 1] [1];
+    r8_p 4 [mkPart 19000 19150 1] [mkPart 19050 19100 1] [0];
+    r8_p 5 [mkPart 19020 19180 1] [mkPart 19080 19140 1] [0];
+    r8_p 6 [mkPart 18000 19000 1] [mkPart 18100 18200 1] [];
+    r8_p 7 [mkPart 9000 11000 1] [mkPart 10000 10100 1] [] ].
+(* the sorted hybrid candidates with their joint cores, as _find_interleaved_candidates receives them *)
+Definition r8_cc : list (cand * loc) :=
+  match (do hu <- find_hybrids (ordered_list r8_protos) (Some 20000);
+         do b1 <- build_candidates (Some 20000) K_HYBRID (fst hu) [] [];
+         with_cores (Some 20000) (fst (fst b1))) with
+  | Ok cc => cc
+  | Err _ => []
+  end.
+Definition ids_of (ck : cand * loc) : list Z := map pid (cmem (fst ck)).
+(* NOT the code: the candidate pair loop with an early exit `if other_candidate.start > candidate.end: break`
+   (the shape of the break in the protocluster/protocluster loop; sound only where .end bounds the location) *)
+Fixpoint pairs_until (c : cand * loc) (rest : list (cand * loc)) : list (cand * loc) :=
+  match rest with
+  | [] => []
+  | o :: r => if fend (cloc (fst c)) <? fstart (cloc (fst o)) then []
+              else if Ring.cc_rel c o then o :: pairs_until c r else pairs_until c r
+  end.
+Fixpoint pairs_early_exit (cc : list (cand * loc)) : list ((cand * loc) * (cand * loc)) :=
+  match cc with
+  | [] => []
+  | c :: r => map (fun o => (c, o)) (pairs_until c r) ++ pairs_early_exit r
+  end.
+
+Lemma ring_three_hybrids_witness :
+  (exists out, create_candidates r8_protos (Some 20000) = Ok out /\
+     view out = [(K_NEIGHBOURING, [0; 1; 6; 3; 2; 4; 5]); (K_INTERLEAVED, [0; 1; 3; 2]); (K_HYBRID, [0; 1]);
+                 (K_SINGLE, [7]); (K_SINGLE, [6]); (K_HYBRID, [3; 2]); (K_HYBRID, [4; 5])] /\
+     forallb (fun b => b) (kind_clauses r8_protos (Some 20000) (map to_ocand out)) = true) /\
+  map ids_of r8_cc = [[0; 1]; [3; 2]; [4; 5]] /\
+  map (fun ck => (fstart (cloc (fst ck)), fend (cloc (fst ck)))) r8_cc = [(19500, 500); (18900, 19950); (19000, 19180)] /\
+  map (fun xy => (ids_of (fst xy), ids_of (snd xy))) (pairs_rel Ring.cc_rel r8_cc) = [([0; 1], [3; 2])] /\
+  pairs_early_exit r8_cc = [] /\
+  (match first_last r8_cc with Some (f, l) => (ids_of f, ids_of l, Ring.cc_rel f l) | None => ([], [], true) end)
+  = ([0; 1], [4; 5], false).
+Proof.
+  split.
+  - destruct (create_candidates r8_protos (Some 20000)) as [out|k] eqn:E; vm_compute in E; [|discriminate E].
+    inversion E as [E']. eexists. split; [reflexivity|]. split; vm_compute; reflexivity.
+  - repeat split; vm_compute; reflexivity.
+Qed.
+
+(* classes of protocluster: gene 0 carries CORE functions for the products of 0 and 1 and lies in both cores; with 1 a
+   SideloadedProtocluster (flag false) its public definition_cdses is empty although add_cds recorded the gene in the
+   private set: no chemical hybrid, INTERLEAVED {0,1}; were 1 rule-based the two would form a CHEMICAL_HYBRID *)
+Definition sl_genes : list gene := [mkGene 0 [mkPart 300 400 1] [0; 1]].
+Definition sl_protos (second_defining : bool) : list (proto * bool) :=
+  [ (mkProto 0 [mkPart 50 600 1] [mkPart 100 500 1] 0 [], true);
+    (mkProto 1 [mkPart 200 800 1] [mkPart 250 700 1] 1 [], second_defining);
+    (mkProto 2 [mkPart 2200 2700 1] [mkPart 2250 2600 1] 3 [], false);
+    (mkProto 3 [mkPart 2000 2550 1] [mkPart 2100 2500 1] 2 [], true) ].
+Lemma sideloaded_witness :
+  map (fun pk => private_defs sl_genes (fst pk)) (sl_protos false) = [[0]; [0]; []; []] /\
+  map (fun pk => pdefs (with_defs_k sl_genes pk)) (sl_protos false) = [[0]; []; []; []] /\
+  (exists out, record_create 4000 false sl_genes (sl_protos false) = Ok out /\
+               view out = [(K_INTERLEAVED, [0; 1]); (K_INTERLEAVED, [3; 2])]) /\
+  (exists out, record_create 4000 false sl_genes (sl_protos true) = Ok out /\
+               view out = [(K_HYBRID, [0; 1]); (K_INTERLEAVED, [3; 2])]).
+Proof.
+  split; [vm_compute; reflexivity|]. split; [vm_compute; reflexivity|]. split.
+  - destruct (record_create 4000 false sl_genes (sl_protos false)) as [out|k] eqn:E; vm_compute in E; [|discriminate E].
+    inversion E. eexists. split; [reflexivity|vm_compute; reflexivity].
+  - destruct (record_create 4000 false sl_genes (sl_protos true)) as [out|k] eqn:E; vm_compute in E; [|discriminate E].
+    inversion E. eexists. split; [reflexivity|vm_compute; reflexivity].
+Qed.
+
+Lemma sideloaded_summary :
+  (forall genes p, pdefs (with_defs_k genes (p, false)) = []) /\
+  (forall genes p, pdefs (with_defs_k genes (p, true)) = private_defs genes p) /\
+  (forall a b, pdefs a = [] -> defs_intersect a b = false /\ defs_intersect b a = false) /\
+  (forall clusters g x, In g (hybrid_pair_groups clusters) -> In x g -> pdefs x <> []).
+Proof.
+  split; [exact Ring.sideloaded_no_defs|]. split; [exact Ring.rule_based_defs|].
+  split; [exact Ring.no_defs_no_sharing|exact Ring.no_defs_in_no_pair].
+Qed.
